@@ -14,6 +14,9 @@ A *job* describes one program (compiled once):
     ver      TEAL version;  backend  "scratch" | "frame" (all ABI values are frame variables of a subroutine,
              v8+) | "frameabi" (the decoded value is an ABI argument of the subroutine, v8+)
     mode     "store" | "use" (ComputedValue.use) ;  logmode "encode" | "get"
+    user_slots  optional list of requested scratch slot ids of user ScratchVars the routine also owns (markers written before the
+             decode and between extraction and use, asserted afterwards);  backend "subscratch" = subroutine without frame pointers
+    flow     optional "reuse-if" | "loop" | "after-branch" (control flow around the access);  opt  scratch_slots option (None = default)
     runs     [{"enc": hex, "idx": int | None, "tag": "in" | "oob" | "bad", "expect": hex | None, "n": array length}]
 """
 import json
@@ -102,12 +105,17 @@ def build_program(pt, job):
             return pt.Log(pt.Itob(g) if g.type_of() == pt.TealType.uint64 else g)
         return pt.Log(x.encode())
 
+    user_slots = job.get("user_slots") or []
+    flow = job.get("flow")
+    state = {"between": []}
+
     def access(cv):
-        """cv: ComputedValue -> expression that logs it"""
+        """cv: ComputedValue -> expression that logs it (user-variable writes go between the extraction and the use)"""
+        bw = list(state["between"])
         if mode == "use":
-            return cv.use(lambda x: log_of(x))
+            return cv.use(lambda x: pt.Seq(*(bw + [log_of(x)])))
         out = cv.produced_type_spec().new_instance()
-        return pt.Seq(cv.store_into(out), log_of(out))
+        return pt.Seq(*([cv.store_into(out)] + bw + [log_of(out)]))
 
     def body(val):
         """val: the decoded ABI value -> the expression that accesses and logs"""
@@ -120,11 +128,12 @@ def build_program(pt, job):
         if kind == "nested":
             arr = spec.value_type_specs()[job["i"]].new_instance()
             return pt.Seq(val[job["i"]].store_into(arr), access(arr[ix()]))
+        bw = list(state["between"])
         if kind == "length":
-            return pt.Log(pt.Itob(val.length()))
+            return pt.Seq(*(bw + [pt.Log(pt.Itob(val.length()))]))
         if kind == "get":
             g = val.get()
-            return pt.Log(pt.Itob(g) if g.type_of() == pt.TealType.uint64 else g)
+            return pt.Seq(*(bw + [pt.Log(pt.Itob(g) if g.type_of() == pt.TealType.uint64 else g)]))
         raise ValueError(kind)
 
     def named_cls():
@@ -137,14 +146,45 @@ def build_program(pt, job):
             return named_cls()()
         return spec.new_instance()
 
+    def with_user_vars(inner):
+        """the routine also owns user ScratchVars with requested slot ids (and one more automatic ABI value): they are
+        written before the decode, re-written between the extraction and the use, and must still hold their markers"""
+        if not user_slots:
+            return inner()
+        kept = [pt.ScratchVar(pt.TealType.uint64, r) for r in user_slots]
+        extra = abi.Uint64()
+        pre = [k.store(pt.Int(1000 + r)) for k, r in zip(kept, user_slots)] + [extra.set(5)]
+        state["between"] = [k.store(pt.Int(7000 + r)) for k, r in zip(kept, user_slots)]
+        mid = inner()
+        post = [pt.Assert(k.load() == pt.Int(7000 + r)) for k, r in zip(kept, user_slots)] + [pt.Assert(extra.get() == pt.Int(5))]
+        return pt.Seq(*(pre + [mid] + post))
+
+    def routine(src, v=None):
+        """src: expression of the encoded bytes (None when v is already decoded) -> decode, access, log"""
+        def dec(x):
+            return x.decode(src)
+
+        def inner():
+            val = v if v is not None else new_value()
+            first = [] if v is not None else [dec(val)]
+            if flow == "reuse-if" and src is not None:
+                # used twice in an earlier block, decoded again and used once inside a later If arm
+                return pt.Seq(*(first + [body(val), body(val),
+                                         pt.If(pt.Len(src) >= pt.Int(0)).Then(pt.Seq(dec(val), body(val))).Else(pt.Log(pt.Bytes("else")))]))
+            if flow == "loop":
+                cnt = pt.ScratchVar(pt.TealType.uint64)
+                return pt.Seq(*(first + [pt.For(cnt.store(pt.Int(0)), cnt.load() < pt.Int(2), cnt.store(cnt.load() + pt.Int(1))).Do(body(val))]))
+            if flow == "after-branch" and src is not None:
+                return pt.Seq(pt.If(pt.Len(src) > pt.Int(3)).Then(dec(val)).Else(dec(val)), body(val))
+            return pt.Seq(*(first + [body(val)]))
+        return with_user_vars(inner)
+
     arg0 = pt.Txn.application_args[0]
     if backend == "scratch":
-        v = new_value()
-        return pt.Seq(v.decode(arg0), body(v), pt.Approve())
-    if backend == "frame":
+        return pt.Seq(routine(arg0), pt.Approve())
+    if backend in ("frame", "subscratch"):
         def f(enc):
-            v = new_value()
-            return pt.Seq(v.decode(enc), body(v))
+            return routine(enc)
         f.__annotations__ = {"enc": pt.Expr, "return": pt.Expr}
         f.__name__ = "acc"
         sub = pt.Subroutine(pt.TealType.none)(f)
@@ -153,7 +193,7 @@ def build_program(pt, job):
         ann = spec.annotation_type() if kind != "named" else named_cls()
 
         def g(v):
-            return body(v)
+            return routine(None, v)
         g.__annotations__ = {"v": ann, "return": pt.Expr}
         g.__name__ = "acc"
         sub = pt.Subroutine(pt.TealType.none)(g)
@@ -162,11 +202,22 @@ def build_program(pt, job):
     raise ValueError(backend)
 
 
+def nlogs_of(job):
+    return {"reuse-if": 3, "loop": 2}.get(job.get("flow"), 1) if not (job.get("backend") == "frameabi" and job.get("flow") in ("reuse-if", "after-branch")) else 1
+
+
 def compile_job(pt, job):
     """('ok', teal) | ('exc', name, msg)"""
     def go():
         prog = build_program(pt, job)
-        opt = pt.OptimizeOptions(frame_pointers=True) if job.get("backend", "scratch") != "scratch" else None
+        be = job.get("backend", "scratch")
+        ss = job.get("opt")
+        if be == "scratch":
+            opt = pt.OptimizeOptions(scratch_slots=ss) if ss is not None else None
+        elif be == "subscratch":
+            opt = pt.OptimizeOptions(scratch_slots=ss, frame_pointers=False)
+        else:
+            opt = pt.OptimizeOptions(scratch_slots=ss, frame_pointers=True)
         return pt.compileTeal(prog, pt.Mode.Application, version=job["ver"], optimize=opt)
     return call_real(go)
 
@@ -295,7 +346,13 @@ def execute_job(pt, model, job):
         if verdict not in ("approve", "fail", "reject"):
             out["issues"].append({"kind": "avm", "why": "AVM run inconclusive: %s" % verdict, "run": run})
             continue
-        real = logs[0] if (verdict == "approve" and len(logs) == 1) else ("fail" if verdict != "approve" else "logs:%d" % len(logs))
+        nl = nlogs_of(job)
+        if verdict != "approve":
+            real = "fail"
+        elif len(logs) == nl and all(l_ == logs[0] for l_ in logs):
+            real = logs[0]
+        else:
+            real = "logs:" + ",".join(l_.hex() for l_ in logs)
         # model of the same access on the same bytes
         if job["kind"] == "nested":
             inner = nested_inner(model, job, enc)
